@@ -134,7 +134,7 @@ check('C04',
       'DESIGN.md 7 C04')
 
 check('C06',
-      'property-based testing (Hypothesis): generated event schedules (Toggle/Fault/Alter, enabled/disabled, time '
+      'property-based testing (Hypothesis): generated event schedules (Toggle/Fault/Alter/time-series stamps, enabled/disabled, times rounded or with all binary digits, time '
       'classes incl. t0, tf, beyond tf, >10 s, coincident and near-coincident pairs, segment boundaries) x step size x '
       'fixed/variable step x resumed segments; wrapped timer callbacks and per-step sampling of the targeted fields; '
       'oracle = pure-Python schedule model (exactly-once firing at the exact time, fold of effects, no change elsewhere) '
@@ -164,7 +164,7 @@ check('C15',
       'DESIGN.md 7 C15')
 
 check('C09',
-      'property-based testing (Hypothesis): memory-less discrete components on generated (input, limits, signs, equal, '
+      'property-based testing (Hypothesis): the output of hard-limited blocks under every sign convention against R*clip(K*u, lo, up); rate limiters with per-device enable conditions; memory-less discrete components on generated (input, limits, signs, equal, '
       'one-sided) tuples incl. boundaries and coinciding limits vs reference comparisons; stateful machine for the '
       'history components (Delay, Average, Derivative, Sampling) with the integrator\'s three actions (advance, '
       're-evaluate, rewind) vs a reference computed from the accepted input history; simulation runs with tightened '
@@ -174,7 +174,7 @@ check('C09',
       'DESIGN.md 7 C09')
 
 check('C05',
-      'property-based testing (Hypothesis): every loadable stock dynamic case plus generated variants (devices offline, '
+      'property-based testing (Hypothesis): every loadable stock dynamic case plus generated variants (every dynamic model class out of service once against the case as it is, drawn load-composition weights, degenerate data, devices offline, '
       'machines split with consistent / inconsistent split factors, limits below the operating point); oracle: verdict '
       'consistency (test_ok iff recomputed residuals < tol, failure raises the exit code), success under harness-evaluated '
       'preconditions, bus voltages bitwise equal to the power flow, dynamic injections equal the static generator\'s '
